@@ -619,6 +619,7 @@ func c10(c *ctx) {
 		sid++
 		c10session(c, w, br, encs[k%4], "www.example.com", 0, sid, []int{40000}, br+" singleplex")
 	}
+	c10emptyWrites(c)
 	o.sample("tls.client bytes=<everything a client connection wrote> -> valid sid=.. sni=.. share=.. records=N max=M ; tls.server sid=.. bytes=<everything the server wrote> -> valid records=N max=M")
 	o.sample("chrome/firefox/safari x 4 encryption methods x configured/random server names; traffic incl. frames of exactly the maximum payload, closing notices from both sides")
 }
